@@ -465,9 +465,15 @@ class Events:
         n = self.cfg.node(a)
         if n.kind != 'test':
             return None
-        txt = self.norm.text(n.ast, anon=True)
-        if not self.test_filter(n.ast, txt):
+        # polarity-normal form: `if not X: A else: B` and `if X: B else: A` give the same labelled edges
+        test, flip = strip_await(n.ast), False
+        while isinstance(test, ast.UnaryOp) and isinstance(test.op, ast.Not):
+            test, flip = strip_await(test.operand), not flip
+        txt = self.norm.text(test, anon=True)
+        if not self.test_filter(test, txt):
             return None
+        if flip:
+            l = 'F' if l == 'T' else 'T'
         return '%s:%s' % (l, txt)
 
     def dfa(self):
@@ -663,6 +669,11 @@ class MultipartEscape(Escape):
             is_caught_name = isinstance(e, ast.Name) and caught_ctx is not None and e.id == caught_ctx[0]
             if not is_caught_name:
                 q = resolve_alias(self.p, func.module, e, func)
+                if (not q or q not in self.p.classes) and isinstance(s.exc, ast.Name):
+                    # `error = SomeError(...)` ... `raise error [from err]`: a local bound once to a constructor call
+                    d = Defs(func).single(s.exc.id)
+                    if isinstance(d, ast.Call):
+                        q = resolve_alias(self.p, func.module, d.func, func)
                 if q and q in self.p.classes:
                     where = func.loc(s)
                     txt = short(s, 100)
@@ -682,6 +693,12 @@ class MultipartEscape(Escape):
 
     def _call(self, n, func, selfcls, handlers, out):
         f = n.func
+        if isinstance(f, (ast.Name, ast.Attribute)):
+            # constructing an exception object (outside a `raise` statement as well: `error = SomeError(...)`) is treated like
+            # `raise SomeError(...)`: the constructor's internals are not part of the escape set, its arguments are
+            q = resolve_alias(self.p, func.module, f, func)
+            if q and q in self.p.classes and self.p.is_subclass(q, 'builtins.BaseException') is True:
+                return
         if isinstance(f, ast.Attribute) and f.attr in ('decode', 'encode'):
             codec, errors = _codec_args(n)
             if codec == '?':
